@@ -363,3 +363,266 @@ def gen_action_tables(read):
         "",
     ]
     return "ActionTables.v", "\n".join(lines)
+
+
+# ------------------------------------------------------------------------------------------------ AppSettings
+HELPERS = ["setting", "unset_setting", "global_setting", "unset_global_setting"]
+# functions of command.rs that call the four helpers directly and are read separately (or deliberately not at all)
+HELPER_CALLERS_READ = {"_check_help_and_version"}
+HELPER_CALLERS_NOT_MODELLED = {"color", "_copy_subtree_for_help"}   # colour choice; help-tree expansion (expand_help_tree)
+
+
+def split_fns(src):
+    """[(name, header, body)] for every fn of the file, in order"""
+    out = []
+    for m in re.finditer(r"\bfn\s+(\w+)\s*(?:<[^>{]*>)?\s*\(", src):
+        # find the opening brace of the body (skip the signature; a `;` first means a declaration without body)
+        i = m.end()
+        depth = 1
+        while i < len(src) and depth:
+            depth += {"(": 1, ")": -1}.get(src[i], 0)
+            i += 1
+        j = i
+        while j < len(src) and src[j] not in "{;":
+            j += 1
+        if j >= len(src) or src[j] == ";":
+            continue
+        out.append((m.group(1), src[m.start():j], block_at(src, j, "fn " + m.group(1))))
+    return out
+
+
+def gen_settings_tables(read):
+    ssrc = strip_comments(read("clap_builder/src/builder/app_settings.rs"))
+    csrc = strip_comments(read("clap_builder/src/builder/command.rs"))
+    variants = enum_variants(ssrc, r"pub\(crate\)\s+enum\s+AppSettings", "enum AppSettings")
+    # AppFlags: set = |= bit, unset = &= !bit, is_set = & bit != 0, BitOr = |
+    for fn, shape in (("set", r"self\.0 \|= setting\.bit\(\);"), ("unset", r"self\.0 &= !setting\.bit\(\);"),
+                      ("is_set", r"self\.0 & setting\.bit\(\) != 0")):
+        b = norm(fn_body(ssrc, r"pub\(crate\)\s+fn\s+%s\s*\(\s*&(?:mut\s+)?self\s*,\s*setting\s*:\s*AppSettings\s*\)(?:\s*->\s*bool)?" % fn,
+                         "AppFlags::" + fn))
+        if not re.fullmatch(shape, b):
+            die("AppFlags::%s no longer has the shape %s: %s" % (fn, shape, b))
+    b = norm(fn_body(ssrc, r"fn\s+bitor\s*\(\s*mut\s+self\s*,\s*rhs\s*:\s*Self\s*\)\s*->\s*Self::Output", "AppFlags::bitor"))
+    if b != "self.insert(rhs); self":
+        die("AppFlags::bitor is no longer `self.insert(rhs); self`: " + b)
+    b = norm(fn_body(ssrc, r"pub\(crate\)\s+fn\s+insert\s*\(\s*&mut\s+self\s*,\s*other\s*:\s*Self\s*\)", "AppFlags::insert"))
+    if b != "self.0 |= other.0;":
+        die("AppFlags::insert is no longer `self.0 |= other.0;`: " + b)
+    b = norm(fn_body(ssrc, r"fn\s+bit\s*\(\s*self\s*\)\s*->\s*u32", "AppSettings::bit"))
+    if b != "1 << (self as u8)":
+        die("AppSettings::bit is no longer `1 << (self as u8)` (one bit per variant): " + b)
+    if len(variants) > 32:
+        die("more than 32 AppSettings variants: bits of the u32 would collide")
+
+    fns = split_fns(csrc)
+    # ---- the four helpers
+    helpers = []
+    for h in HELPERS:
+        hs = [f for f in fns if f[0] == h]
+        if len(hs) != 1:
+            die("expected exactly one `fn %s` in command.rs, found %d" % (h, len(hs)))
+        if not re.search(r"\(\s*mut\s+self\s*,\s*setting\s*:\s*AppSettings\s*\)\s*->\s*Self", hs[0][1]):
+            die("Command::%s no longer has the signature (mut self, setting: AppSettings) -> Self" % h)
+        body = norm(hs[0][2])
+        stmts = [s.strip() for s in body.split(";")]
+        if stmts[-1] != "self":
+            die("Command::%s no longer ends in `self`: %s" % (h, body))
+        recs, ops = [], set()
+        for s in stmts[:-1]:
+            sm = re.fullmatch(r"self\.(\w+)\.(set|unset)\(setting\)", s)
+            if not sm:
+                die("Command::%s: unexpected statement %r" % (h, s))
+            recs.append(sm.group(1))
+            ops.add(sm.group(2))
+        if len(ops) != 1:
+            die("Command::%s mixes set and unset" % h)
+        helpers.append((h, ops.pop() == "set", recs))
+    hmap = {h: (is_set, recs) for h, is_set, recs in helpers}
+
+    # ---- the bool setters built on them; every other direct caller of a helper must be known
+    setters = []
+    call = re.compile(r"\.(%s)\(\s*AppSettings::(\w+)\s*\)" % "|".join(HELPERS))
+    for name, header, body in fns:
+        calls = call.findall(body)
+        if not calls or name in HELPERS:
+            continue
+        nb = norm(body)
+        sm = re.fullmatch(r"if yes \{ self\.(\w+)\(AppSettings::(\w+)\) \} else \{ self\.(\w+)\(AppSettings::(\w+)\) \}", nb)
+        if sm and re.search(r"\(\s*self\s*,\s*yes\s*:\s*bool\s*\)\s*->\s*Self", header):
+            h1, v1, h2, v2 = sm.groups()
+            if v1 != v2 or v1 not in variants:
+                die("Command::%s sets %s but unsets %s" % (name, v1, v2))
+            if (h1, h2) == ("setting", "unset_setting"):
+                glob = False
+            elif (h1, h2) == ("global_setting", "unset_global_setting"):
+                glob = True
+            else:
+                die("Command::%s pairs %s with %s" % (name, h1, h2))
+            setters.append((name, v1, glob))
+        elif name in HELPER_CALLERS_READ or name in HELPER_CALLERS_NOT_MODELLED:
+            continue
+        else:
+            die("Command::%s calls %s directly but is not a `if yes { .. } else { .. }` setter the translator can read: %s"
+                % (name, "/".join(sorted({c[0] for c in calls})), nb[:200]))
+    if not setters:
+        die("no bool setters found in command.rs")
+    if len({s[0] for s in setters}) != len(setters):
+        die("duplicate setter names in command.rs")
+
+    # ---- Command::is_set
+    b = norm(fn_body(csrc, r"pub\(crate\)\s+fn\s+is_set\s*\(\s*&self\s*,\s*s\s*:\s*AppSettings\s*\)\s*->\s*bool", "Command::is_set"))
+    parts = [p.strip() for p in b.split("||")]
+    reads = []
+    for p in parts:
+        pm = re.fullmatch(r"self\.(\w+)\.is_set\(s\)", p)
+        if not pm:
+            die("Command::is_set no longer is a disjunction of self.<flags>.is_set(s): " + b)
+        reads.append(pm.group(1))
+
+    # ---- _propagate_subcommand
+    b = norm(fn_body(csrc, r"fn\s+_propagate_subcommand\s*\(\s*&self\s*,\s*sc\s*:\s*&mut\s+Self\s*\)", "Command::_propagate_subcommand"))
+    pm = re.fullmatch(
+        r"\{ if self\.(\w+)\.is_set\(AppSettings::(\w+)\) \{ "
+        r"if let Some\(version\) = self\.version\.as_ref\(\) \{ sc\.version\.get_or_insert_with\(\|\| version\.clone\(\)\); \} "
+        r"if let Some\(long_version\) = self\.long_version\.as_ref\(\) \{ sc\.long_version\.get_or_insert_with\(\|\| long_version\.clone\(\)\); \} \} "
+        r"((?:sc\.\w+ = sc\.\w+ \| self\.\w+; )*)sc\.app_ext\.update\(&self\.app_ext\); \}", b)
+    if not pm:
+        die("Command::_propagate_subcommand no longer has the shape the model transcribes (Parse/Build.v propagate_subcommand): " + b)
+    guard = (pm.group(1), pm.group(2))
+    assigns = re.findall(r"sc\.(\w+) = sc\.(\w+) \| self\.(\w+);", pm.group(3))
+    if not assigns:
+        die("Command::_propagate_subcommand no longer passes any settings to the subcommand")
+    b = norm(fn_body(csrc, r"pub\(crate\)\s+fn\s+_propagate\s*\(\s*&mut\s+self\s*\)", "Command::_propagate"))
+    if "for sc in &mut subcommands { self._propagate_subcommand(sc); }" not in b:
+        die("Command::_propagate no longer calls _propagate_subcommand for every subcommand: " + b)
+
+    # ---- _build_self: the settings block between the Built test and self._propagate()
+    b = norm(fn_body(csrc, r"pub\(crate\)\s+fn\s+_build_self\s*\(\s*&mut\s+self\s*,\s*expand_help_tree\s*:\s*bool\s*\)", "Command::_build_self"))
+    bm = re.search(r"if !self\.settings\.is_set\(AppSettings::Built\) \{ (?:if let Some\(deferred\) = self\.deferred\.take\(\) \{ [^}]* \} )?"
+                   r"self\.(\w+) = self\.(\w+) \| self\.(\w+); (.*?) self\._propagate\(\); self\._check_help_and_version\(expand_help_tree\); "
+                   r"self\._propagate_global_args\(\);", b)
+    if not bm:
+        die("Command::_build_self no longer starts with `settings = settings | g_settings; <conditional sets>; _propagate(); "
+            "_check_help_and_version(..); _propagate_global_args();`: " + b[:400])
+    merge = (bm.group(1), bm.group(2), bm.group(3))
+    sets = []
+    rest = bm.group(4).strip()
+    while rest:
+        im = re.match(r"if (.+?) \{ ((?:self\.settings\.set\(AppSettings::\w+\); )+)\} ?", rest)
+        if not im:
+            die("Command::_build_self: cannot read the settings block at: " + rest[:200])
+        vs = re.findall(r"self\.settings\.set\(AppSettings::(\w+)\);", im.group(2))
+        for v in vs:
+            if v not in variants:
+                die("Command::_build_self sets an unknown AppSettings::" + v)
+        sets.append((im.group(1), vs))
+        rest = rest[im.end():].strip()
+    if "self.settings.set(AppSettings::Built);" not in b:
+        die("Command::_build_self no longer sets AppSettings::Built")
+
+    # ---- _check_help_and_version: what is done to the generated help subcommand after _propagate_subcommand
+    b = norm(fn_body(csrc, r"pub\(crate\)\s+fn\s+_check_help_and_version\s*\(\s*&mut\s+self\s*,\s*expand_help_tree\s*:\s*bool\s*\)",
+                     "Command::_check_help_and_version"))
+    hm = re.search(r"self\._propagate_subcommand\(&mut help_subcmd\); help_subcmd\.version = None; help_subcmd\.long_version = None; "
+                   r"help_subcmd = help_subcmd((?: \.\w+\(AppSettings::\w+\))+); self\.subcommands\.push\(help_subcmd\);", b)
+    if not hm:
+        die("Command::_check_help_and_version: the tail that finishes the generated `help` subcommand has an unknown shape")
+    chain = re.findall(r"\.(\w+)\(AppSettings::(\w+)\)", hm.group(1))
+    for h, v in chain:
+        if h not in HELPERS or v not in variants:
+            die("Command::_check_help_and_version: unknown call .%s(AppSettings::%s)" % (h, v))
+
+    # ---- the model-side spec reader (ocaml/common_parse/spec.ml): scope helpers and setter arms
+    with open(os.path.join(ROOT, "ocaml", "common_parse", "spec.ml"), encoding="utf-8") as f:
+        osrc = f.read()
+    om = re.search(r"let apply_setting \(c : Cmd\.cmd\) \(name : string\) : Cmd\.cmd =(.*?)\n\n", osrc, re.S)
+    if not om:
+        die("ocaml/common_parse/spec.ml: apply_setting not found")
+    ob = om.group(1)
+    scopes = []
+    for sm in re.finditer(r"let (\w+) f = \{ c with ([^}]*) \} in", ob):
+        recs = []
+        for part in [p.strip() for p in sm.group(2).split(";") if p.strip()]:
+            rm = re.fullmatch(r"(\w+) = f c\.(\w+)", part)
+            if not rm or rm.group(1) != rm.group(2):
+                die("spec.ml apply_setting: scope helper %s has an unexpected field update %r" % (sm.group(1), part))
+            recs.append(rm.group(1))
+        scopes.append((sm.group(1), recs))
+    if not scopes:
+        die("spec.ml apply_setting: no scope helpers (`let both f = ...`) found")
+    arms = []
+    body_arms = ob[ob.index("match name with"):]
+    for line in [l.strip() for l in body_arms.split("\n")[1:] if l.strip()]:
+        am = re.fullmatch(r'\| "(\w+)" -> (\w+) \(fun s -> \{ s with (\w+) = true \}\)', line)
+        if am:
+            if am.group(2) not in [s[0] for s in scopes]:
+                die("spec.ml apply_setting: unknown scope helper in arm " + line)
+            arms.append((am.group(1), am.group(2), am.group(3)))
+        elif re.fullmatch(r'\| x -> failwith \("setting " \^ x\)', line):
+            continue
+        else:
+            die("spec.ml apply_setting: arm with an unexpected shape: " + line)
+    if not arms:
+        die("spec.ml apply_setting: no arms")
+
+    # ---- the implementation-side spec reader (harness/src/modes/parse.rs): which Command method a setter name calls
+    with open(os.path.join(ROOT, "harness", "src", "modes", "parse.rs"), encoding="utf-8") as f:
+        hsrc = f.read()
+    hm2 = re.search(r'c = match f\.sym\(\) \{(.*?)x => panic!\("setting \{x\}"\),', hsrc, re.S)
+    if not hm2:
+        die("harness/src/modes/parse.rs: the `(set ...)` match on setter names was not found")
+    harms = []
+    for line in [l.strip() for l in hm2.group(1).split("\n") if l.strip()]:
+        am = re.fullmatch(r'"(\w+)" => c\.(\w+)\(true\),', line)
+        if not am:
+            die("harness/src/modes/parse.rs: setter arm with an unexpected shape: " + line)
+        harms.append((am.group(1), am.group(2)))
+
+    def sl(l):
+        return "[" + "; ".join(cstr(x) for x in l) + "]"
+    lines = [
+        "(* GENERATED by translators/builder_tables.py from clap_builder/src/builder/{app_settings,command}.rs and",
+        "   (last three tables) from this framework's ocaml/common_parse/spec.ml and harness/src/modes/parse.rs -- do not edit. *)",
+        "From Coq Require Import List String.",
+        "Import ListNotations.",
+        "Open Scope string_scope.",
+        "",
+        "(* variants of `enum AppSettings` in declaration order (one bit of a u32 each) *)",
+        "Definition gen_appsettings : list string := " + clist([cstr(v) for v in variants]) + ".",
+        "(* Command::{setting, unset_setting, global_setting, unset_global_setting}:",
+        "   (fn, true = set / false = unset, the AppFlags fields of Command it changes, in order) *)",
+        "Definition gen_setting_helpers : list (string * bool * list string) := "
+        + clist(["(%s, %s, %s)" % (cstr(h), "true" if s else "false", sl(r)) for h, s, r in helpers]) + ".",
+        "(* every `pub fn x(self, yes: bool) -> Self { if yes { self.<set>(AppSettings::V) } else { self.<unset>(AppSettings::V) } }`:",
+        "   (x, V, true = through global_setting/unset_global_setting, false = through setting/unset_setting) *)",
+        "Definition gen_setters : list (string * string * bool) := "
+        + clist(["(%s, %s, %s)" % (cstr(n), cstr(v), "true" if g else "false") for n, v, g in setters]) + ".",
+        "(* Command::is_set(s) = self.<f1>.is_set(s) || self.<f2>.is_set(s) ... *)",
+        "Definition gen_is_set_reads : list string := " + sl(reads) + ".",
+        "(* Command::_propagate_subcommand: `if self.<f>.is_set(AppSettings::<V>) { version, long_version: get_or_insert }` *)",
+        "Definition gen_propagate_version_guard : string * string := (%s, %s)." % (cstr(guard[0]), cstr(guard[1])),
+        "(* ... then, in order, `sc.<a> = sc.<b> | self.<c>;` *)",
+        "Definition gen_propagate_assigns : list (string * string * string) := "
+        + clist(["(%s, %s, %s)" % (cstr(a), cstr(b_), cstr(c)) for a, b_, c in assigns]) + ".",
+        "(* Command::_build_self, first statement: `self.<a> = self.<b> | self.<c>;` *)",
+        "Definition gen_build_self_merge : string * string * string := (%s, %s, %s)." % tuple(cstr(x) for x in merge),
+        "(* ... then `if <condition> { self.settings.set(AppSettings::V); .. }` blocks, in order: (condition text, [V]) *)",
+        "Definition gen_build_self_sets : list (string * list string) := "
+        + clist(["(%s, %s)" % (cstr(c), sl(vs)) for c, vs in sets]) + ".",
+        "(* Command::_check_help_and_version: calls applied to the generated `help` subcommand after _propagate_subcommand *)",
+        "Definition gen_help_sub_chain : list (string * string) := "
+        + clist(["(%s, %s)" % (cstr(h), cstr(v)) for h, v in chain]) + ".",
+        "",
+        "(** ---- ocaml/common_parse/spec.ml: apply_setting ---- *)",
+        "(* scope helpers: (name, the fields of Cmd.cmd the update is applied to) *)",
+        "Definition gen_spec_scopes : list (string * list string) := "
+        + clist(["(%s, %s)" % (cstr(n), sl(r)) for n, r in scopes]) + ".",
+        "(* arms: (setter name in a case file, scope helper, field of Cmd.settings set to true) *)",
+        "Definition gen_spec_settings : list (string * string * string) := "
+        + clist(["(%s, %s, %s)" % (cstr(n), cstr(s), cstr(f)) for n, s, f in arms]) + ".",
+        "(** ---- harness/src/modes/parse.rs: (setter name in a case file, the Command method called with `true`) ---- *)",
+        "Definition gen_harness_settings : list (string * string) := "
+        + clist(["(%s, %s)" % (cstr(n), cstr(m_)) for n, m_ in harms]) + ".",
+        "",
+    ]
+    return "SettingsTables.v", "\n".join(lines)
